@@ -23,14 +23,40 @@ JudgeUntyped(r) ==
            ELSE Verdict(r.id, "REJECT", "SpuriousRefusal", TRUE, r.exc)
        ELSE Verdict(r.id, "REJECT", "InternalError", TRUE, r.exc)
 
+(* C07 record: [id, kind = "call", sig, shape, mname, out (emitted lambda), exc] *)
+JudgeCall(r) ==
+    LET miss == Missing(r.sig, r.shape) IN
+    IF miss THEN
+        IF r.exc = "ValueError" THEN Verdict(r.id, "ACCEPT", "missing-refused", TRUE, "")
+        ELSE Verdict(r.id, "REJECT", "MissingNotRefused", TRUE, r.exc)
+    ELSE IF r.exc # "" THEN Verdict(r.id, "REJECT", "Raised", TRUE, r.exc)
+    ELSE LET calls == CallsOf(r.out, r.mname)
+             want == Normalized(r.sig, r.shape)
+             nontriv == r.shape.kws # <<>> \/ r.shape.npos < r.sig.n
+         IN IF Cardinality(calls) # 1 THEN Verdict(r.id, "REJECT", "CallSiteCount", nontriv, "")
+            ELSE LET cl == CHOOSE x \in calls : TRUE IN
+                 IF cl.p # <<>> THEN Verdict(r.id, "REJECT", "KeywordLeft", nontriv, "")
+                 ELSE IF CallArgs(cl) # want THEN Verdict(r.id, "REJECT", "Arguments", nontriv, "")
+                 ELSE IF ~OperatorsUntouched(r.out) THEN Verdict(r.id, "REJECT", "OperatorArgsChanged", nontriv, "")
+                 ELSE Verdict(r.id, "ACCEPT", "", nontriv, "")
+
 Judge(r) == CASE r.kind = "untyped" -> JudgeUntyped(r)
+              [] r.kind = "call" -> JudgeCall(r)
               [] OTHER -> Verdict(r.id, "UNMODELLED", "kind", FALSE, r.kind)
+
+(* what the specification itself predicts (exported so that the harness can cross-check *)
+(* the specification against CPython's own inspect.Signature.bind: spec honesty)        *)
+SpecSays(r) == IF r.kind = "call"
+               THEN [miss |-> Missing(r.sig, r.shape),
+                     want |-> IF Missing(r.sig, r.shape) THEN <<>> ELSE Normalized(r.sig, r.shape)]
+               ELSE [miss |-> FALSE, want |-> <<>>]
 
 VARIABLE l
 Init == l = 1
 Next == /\ l <= Len(Trace)
         /\ l' = l + 1
-        /\ Serialize(ToJson(Judge(Trace[l])) \o "\n", IOEnv.OUT_FILE, AppendOpt).exitValue = 0
+        /\ Serialize(ToJson([verdict |-> Judge(Trace[l]), spec |-> SpecSays(Trace[l])]) \o "\n",
+                     IOEnv.OUT_FILE, AppendOpt).exitValue = 0
 Spec == Init /\ [][Next]_l
 Accepted == TLCGet("stats").diameter - 1 = Len(Trace)
 =============================================================================
